@@ -808,7 +808,10 @@ impl OverlayInode {
         self.childrens.lock().unwrap().remove(name);
     }
 
-    pub fn insert_child(&self, name: &str, node: Arc<OverlayInode>) {
+    pub fn insert_child(self: &Arc<Self>, name: &str, node: Arc<OverlayInode>) {
+        // Create bi-directional link between parent and child, as load_directory() does for
+        // the nodes it finds in the layers: ".." of a directory made at run time is its parent.
+        *node.parent.lock().unwrap() = Arc::downgrade(self);
         self.childrens
             .lock()
             .unwrap()
